@@ -162,6 +162,11 @@ func (e *Exec) constVal(c *ssa.Const) Val {
 }
 
 func (e *Exec) toBV64(v Val) string {
+	if isUntyped(v) {
+		if bi, ok := new(big.Int).SetString(v.S, 10); ok {
+			return bvLit(64, bi)
+		}
+	}
 	w, signed, ok := intInfo(v.T)
 	if !ok {
 		return v.S
